@@ -37,4 +37,33 @@ def turochampExplore (z : ZTable) : World → Explore := fun w =>
 /-- The leaf evaluation of the TUROCHAMP search: quiescence over the considerable moves. -/
 def turochampLeaf (z : ZTable) (fuel : Nat) : LeafEval World := .quiescence (turochampExplore z) fuel
 
+/-! ## The engines' evaluations as leaf keys -/
+
+/-- order-embedding key of a `float32` given by the rational it denotes (`Flt.bits32`: sign-magnitude, negated for
+    negatives); comparing keys is comparing the floats -/
+def f32keyOfQ (q : Flt.Q) : Int :=
+  match Flt.bits32 q with
+  | some b => if b ≥ 2147483648 then -((b - 2147483648 : Nat) : Int) else (b : Int)
+  | none => 0
+
+/-- BERNSTEIN's evaluation (`bernstein.Eval{Factor: factor}`) as a leaf key; `none` (a position without a king, where
+    the Go code panics) reads 0 and is not searched by the streams -/
+def bernsteinKeyF (factor : Int) (pos : Position) (turn : Color) : Int :=
+  match Bernstein.evalEvaluate pos factor turn with
+  | some q => f32keyOfQ q
+  | none => 0
+
+/-- TUROCHAMP's evaluation (`turochamp.Eval{}`) of board 0 as a leaf key: it reads the position, the side to move and
+    both `HasCastled` flags of the board -/
+def turochampKey (w : World) : Int :=
+  match Turochamp.evaluate w 0 with
+  | some q => f32keyOfQ q
+  | none => 0
+
+/-- The game the BERNSTEIN engine searches. -/
+def bernsteinGame (z : ZTable) (factor : Int) : Game World := boardGame z (bernsteinKeyF factor)
+
+/-- The game the TUROCHAMP engine searches. -/
+def turochampGame (z : ZTable) : Game World := boardGameW z turochampKey
+
 end Morlock.Model
